@@ -58,6 +58,14 @@ def operand(rng, m, reduced, wide=2 ** 32):
 
 
 def gen_case(rng, stream, tier, big=False):
+    """one or (30%) two initialisations of the same object, each followed by operations: re-initialising with another
+    characteristic must leave no trace of the previous one"""
+    lines = gen_segment(rng, stream, tier, big)
+    if not big and rng.random() < 0.3 and len(lines) > 2: lines += gen_segment(rng, stream, tier, False)
+    return lines
+
+
+def gen_segment(rng, stream, tier, big=False):
     fam, ops, con = STREAMS[stream]
     lines = []
     if fam == 'zp':
